@@ -134,6 +134,9 @@ class PendingIntEntry:
             # Cannot reproduce the scenario. Especially, delay in validator() does not trigger the race condition
             # But anyway, let me add a guard check here.
             return
+        if utils.timestamp() > self.deadline:
+            # The validator took longer than the Interest's lifetime: this is a timeout, also when nobody is waiting yet
+            return
         if valid == ValidResult.PASS or valid == ValidResult.ALLOW_BYPASS:
             self.future.set_result((name, content, pkt_context))
         else:
@@ -167,8 +170,12 @@ class InterestTreeNode:
     def satisfy(self, data: types.DataTuple, is_prefix: bool) -> bool:
         unsatisfied_entries = []
         raw_packet = data[4]
+        now = utils.timestamp()
         for entry in self.pending_list:
-            if entry.can_be_prefix or not is_prefix:
+            if now > entry.deadline:
+                # The lifetime is over, whether or not the application has started to wait for the result
+                passed = False
+            elif entry.can_be_prefix or not is_prefix:
                 if len(entry.implicit_sha256) > 0:
                     data_sha256 = sha256(raw_packet).digest()
                     passed = data_sha256 == entry.implicit_sha256
@@ -578,8 +585,9 @@ class NDNApp:
         lifetime = deadline - utils.timestamp()
         if lifetime <= 0:
             # This happens if the application sends an Interest, does some calculation, and then fetches the result.
-            # The Interest should be satisfied now. Thus, it should not be considered as an error.
-            lifetime = 100
+            # The Interest should be satisfied now. Thus, it should not be considered as an error:
+            # hand over what was decided by the deadline, but do not wait for anything that comes after it.
+            lifetime = 0
         try:
             data_name, content, pkt_context = await aio.wait_for(future, timeout=lifetime/1000.0)
         except TimeoutError:
